@@ -145,6 +145,13 @@ def main():
         if prop in tags:
             kf = [k for k in findings if k['property'] == prop and k['obligation'] == f.oid and (not k['site'] or k['site'] == f.addr)]
             (known_hits if kf else violations).append(f)
+    # ownership conditions checked on the source text (@holds)
+    synt = [x for x in getattr(res, 'syntactic', []) if prop in x['tags']]
+    for x in synt:
+        if not x['ok']:
+            violations.append(runner.Failure(oid=x['oid'], addr=x['addr'], kind='ownership', message='ownership condition not met: ' + x['why'],
+                                             gen_line=0, src_file=x['src_file'], src_line=x['src_line'], tags=x['tags'],
+                                             rendered='syntactic ownership check (Rust drop rules) failed in %s: %s' % (x['addr'], x['why'])))
     # Modularity caveat: a function that did not exist when the contracts were written has no contract; a caller of
     # it cannot be decided (its failing obligations are "undecided", exit 2, not a violation).
     try:
@@ -181,13 +188,6 @@ def main():
                 changed_trusted.append(f.addr)
     for a_ in changed_trusted:
         run.tool_errors.append('undecided: the unverified (trusted/external) function %s changed since its contract was assumed; its contract must be re-audited' % a_)
-    # ownership conditions checked on the source text (@holds)
-    synt = [x for x in getattr(res, 'syntactic', []) if prop in x['tags']]
-    for x in synt:
-        if not x['ok']:
-            violations.append(runner.Failure(oid=x['oid'], addr=x['addr'], kind='ownership', message='ownership condition not met: ' + x['why'],
-                                             gen_line=0, src_file=x['src_file'], src_line=x['src_line'], tags=x['tags'],
-                                             rendered='syntactic ownership check (Rust drop rules) failed in %s: %s' % (x['addr'], x['why'])))
     scan_fail = []
     # thorough: vacuity canary + solver seeds
     canary = None
@@ -313,11 +313,12 @@ def main():
 
 COMMON_ASSUMPTIONS = [
     'Verus, Z3, vstd, rustc are sound; Kani/CBMC where a harness is listed',
-    'the generated file is /repo/src copied token for token except rewrite rules R1..R15 (DESIGN.md 2.2); hit counts in coverage.rewrite_rule_hits',
+    'the generated file is /repo/src copied token for token except rewrite rules R1..R18 (DESIGN.md 2.2 and 13); hit counts in coverage.rewrite_rule_hits',
     'assumed std contracts (spec/std_specs.rs): VecDeque::{as_slices,capacity,shrink_to,shrink_to_fit}, Vec::capacity, Vec::extend(&[u8]), HashMap<String,_> looked up by &str (String key model, view injectivity), Result::unwrap_or_else, convert::identity, mem::take, str::from_utf8, Instant::now; derived Default/PartialEq impls are field-wise',
     'shims of R6/R7 (spec/vshim.rs): u16/u32/u64 to/from little-endian bytes = vstd::bytes specs; Vec::drain(..n) / VecDeque::drain(..n) remove the first n elements',
     'crc32 is an uninterpreted function of (payload, type byte) (R9); nothing is assumed about it',
-    'FS/Arc layer (rolling/*) trusted against the BlockRead/BlockWrite trait contracts: files behave like an append-only byte stream cut into 32 KiB blocks, flushed/synced when persist says so',
+    'FS primitives (rolling/*): assumed contracts over a ghost model -- a file is a byte stream cut into 32 KiB blocks (spec/vfs.rs, read side); BufWriter<File> = vshim::BufFile with ghost content()/flushed()/synced() (write side): flush hands everything to the OS, fdatasync makes what the OS has durable, a forward seek skips bytes the file already holds; what is on disk after a FAILED write is not modelled',
+    'A-stream-bound: fewer than 2^62 bytes are written through one RollingWriter (explicit assume at the roll-over); A-file-size: recovery resumes within the first 128 MiB of a WAL file',
     'usize is 64 bit; machine arithmetic is NOT treated as mathematical (every +,-,*,cast is an overflow obligation)',
     'physical bounds: a payload buffer never exceeds 2^60 bytes; one GC pass writes less than 2^60 bytes',
     'spec_from axioms (spec/vfrom.rs): the `?` operator converts errors exactly as the crate\'s verified From impls',
